@@ -212,3 +212,24 @@ func genWfcpTree(r *rand.Rand, ps *ParamSpec, now0 int64) *Tree {
 	}
 	return t
 }
+
+// genTrap2Tree: see trap2Info. No retargeting: work = number of headers.
+func genTrap2Tree(r *rand.Rand, ps *ParamSpec, now0 int64) *Tree {
+	ps.NoRetarget = true
+	t := newTree(mkParams(*ps, nil))
+	n := 12 + r.Intn(9)
+	cur := t.Nodes[0]
+	for i := 0; i < n; i++ {
+		cur = t.mine(r, cur, dtFor(r, cur), "", now0)
+		t.main = append(t.main, cur)
+	}
+	c1 := 3 + r.Intn(n-9)    // 3 .. n-7
+	c2 := c1 + 1 + r.Intn(4) // <= n-3
+	f := r.Intn(c1 - 1)      // 0 .. c1-2
+	info := &trap2Info{c1: int32(c1), c2: int32(c2), base: t.atHeight(f)}
+	info.side = t.grow(r, info.base, 1+r.Intn(c1-1-f), now0) // tip <= c1-1
+	info.forkLeaf = t.grow(r, t.atHeight(c1), c2-c1+r.Intn(3), now0)
+	t.trap2 = info
+	ps.Checkpoints = []int{t.main[c1-1].ID, t.main[c2-1].ID}
+	return t
+}
